@@ -21,6 +21,7 @@ package path
 //@   modifies checkFailures
 //@   ensures checkFailures == old(checkFailures) + ite(err == nil, 0, 1)
 //@   ensures err == nil ==> rwPath != nil
+//@   ensures errWF(err)
 //@ func CheckKeyValue(path, rwPath, val) (err)
 //@   props C12, C13
 //@   safe
@@ -28,6 +29,7 @@ package path
 //@   trusted
 //@   modifies checkFailures
 //@   ensures checkFailures == old(checkFailures) + ite(err == nil, 0, 1)
+//@   ensures errWF(err)
 
 // x lies strictly below p at a path-element boundary
 //@ spec under(x string, p string) bool = hasPrefix(x, p) && len(x) > len(p) && (at(x, len(p)) == "/" || at(x, len(p)) == "[")
@@ -56,6 +58,7 @@ package path
 //@   props C12
 //@   safe
 //@   modifies nothing
+//@   ensures errWF(err)
 //@ func ExtractIndexNames(path) (names, values)
 //@   props C12
 //@   safe
